@@ -51,6 +51,7 @@ type Config struct {
 	Tier         string
 	MaxWallS     int // per harness wall-clock budget
 	Witnesses    int // sample this many complete paths as concrete witnesses
+	PermsInInit  bool // also permute ranges executed by package initialisers
 }
 
 // Machine executes one harness function over all feasible paths.
@@ -84,6 +85,9 @@ type Machine struct {
 	// concrete replay of a witness model (translator self-test, DESIGN 3.16)
 	Concrete map[string]ModelVal
 	Trace    []string
+
+	harnessPkg *ssa.Package // package of the harness being run
+	curPkg     *ssa.Package // package of the function currently executing (for vfStub_* lookups)
 
 	frontierDepth int     // >0: stop at this many decisions and record prefixes
 	Frontier      [][]int // recorded decision prefixes
@@ -123,6 +127,7 @@ type HarnessResult struct {
 	Functions   map[string]bool
 	UnwindChecks int
 	Witnesses   []map[string]ModelVal // models of sampled complete paths
+	RangeSites  map[string]int        // range-over-map statements executed under permutation mode with >= 2 entries
 }
 
 func NewMachine(prog *ssa.Program, solver *Solver, cfg Config, hooks *Hooks) *Machine {
@@ -177,6 +182,7 @@ func (m *Machine) RunHarness(fn *ssa.Function) *HarnessResult {
 }
 
 func (m *Machine) explore(fn *ssa.Function) *HarnessResult {
+	m.harnessPkg = fn.Pkg
 	start := time.Now()
 	for {
 		if m.Cfg.MaxWallS > 0 && time.Since(start).Seconds() > float64(m.Cfg.MaxWallS) {
@@ -320,6 +326,7 @@ func (m *Machine) RunConcrete(fn *ssa.Function, model map[string]ModelVal) (trac
 	m.Res = &HarnessResult{Name: fn.Name(), Reached: map[string]int{}, Functions: map[string]bool{}}
 	m.dec = nil
 	m.resetPath()
+	m.harnessPkg = fn.Pkg
 	m.Concrete = model
 	m.Trace = nil
 	defer func() {
@@ -763,6 +770,18 @@ func (m *Machine) callClosure(fn *ssa.Function, env []Value, args []Value) (resu
 	if fn.Synthetic != "" && pkgPath == "" {
 		// bound-method closures and thunks have no package; allow
 	} else if !execPackage(pkgPath) && !(fn.Parent() != nil) {
+		// environment stub supplied by the harness files of the calling
+		// package: vfStub_<pkg>_<Func>
+		if stubPkg := m.curPkg; stubPkg != nil && fn.Signature.Recv() == nil {
+			short := pkgPath
+			if i := strings.LastIndex(short, "/"); i >= 0 {
+				short = short[i+1:]
+			}
+			short = strings.TrimSuffix(short, ".v3")
+			if stub := stubPkg.Func("vfStub_" + sanitizeName(short) + "_" + fn.Name()); stub != nil {
+				return m.callClosure(stub, nil, args)
+			}
+		}
 		unsupported("call to %s (package %q is not executed and has no intrinsic)", name, pkgPath)
 	}
 	if len(fn.Blocks) == 0 {
@@ -772,6 +791,11 @@ func (m *Machine) callClosure(fn *ssa.Function, env []Value, args []Value) (resu
 		m.ensureInit(fn.Pkg)
 	}
 	m.Res.Functions[name] = true
+	if fn.Pkg != nil {
+		saved := m.curPkg
+		m.curPkg = fn.Pkg
+		defer func() { m.curPkg = saved }()
+	}
 	m.depth++
 	if m.depth > 300 {
 		unsupported("UNWIND-INSUFFICIENT: call depth > 300 at %s", name)
@@ -1108,7 +1132,7 @@ func (m *Machine) eval(fr *frame, v ssa.Value) Value {
 	case *ssa.Next:
 		return m.next(m.get(fr, x.Iter).(*iterator), x)
 	case *ssa.Range:
-		return m.rangeIter(m.get(fr, x.X), x.X.Type())
+		return m.rangeIter(m.get(fr, x.X), x.X.Type(), x)
 	case *ssa.Slice:
 		return m.sliceOp(fr, x)
 	case *ssa.TypeAssert:
@@ -1852,7 +1876,17 @@ func permutations(n int) [][]int {
 	return res
 }
 
-func (m *Machine) rangeIter(x Value, t types.Type) Value {
+// RangeSiteKey identifies a range-over-map statement.
+func RangeSiteKey(x *ssa.Range) string {
+	fn := x.Parent()
+	name := fn.String()
+	if fn.Origin() != nil {
+		name = fn.Origin().String()
+	}
+	return name + "@" + fn.Prog.Fset.Position(x.Pos()).String()
+}
+
+func (m *Machine) rangeIter(x Value, t types.Type, site *ssa.Range) Value {
 	if typeIsString(t) {
 		return &iterator{isStr: true, str: toTerm(x)}
 	}
@@ -1866,7 +1900,17 @@ func (m *Machine) rangeIter(x Value, t types.Type) Value {
 	for i := range order {
 		order[i] = i
 	}
-	if m.Cfg.MapPerms && n > 1 {
+	if m.Cfg.MapPerms && n > 1 && site != nil && strings.Contains(m.Prog.Fset.Position(site.Pos()).Filename, "zz_vf_") {
+		// harness code: its own map loops are order-insensitive by construction
+	} else if m.Cfg.MapPerms && n > 1 && site != nil && !m.Cfg.PermsInInit && strings.HasPrefix(site.Parent().Name(), "init") {
+		// package initialisers are permuted only by the harness dedicated to them
+	} else if m.Cfg.MapPerms && n > 1 {
+		if site != nil {
+			if m.Res.RangeSites == nil {
+				m.Res.RangeSites = map[string]int{}
+			}
+			m.Res.RangeSites[RangeSiteKey(site)]++
+		}
 		if n > 4 {
 			unsupported("UNWIND-INSUFFICIENT: map with %d entries under permutation mode", n)
 		}
